@@ -19,7 +19,7 @@
    Statements only; proofs in Proofs/Conc*.v. *)
 From Coq Require Import List ZArith Bool Lia Arith.
 Import ListNotations.
-From Arrai Require Import Sys.Conc Proofs.ConcP Proofs.ConcImportP Proofs.ConcImportLiveP Proofs.ConcVerdictP.
+From Arrai Require Import Sys.Conc Proofs.ConcP Proofs.ConcImportP Proofs.ConcImportLiveP Proofs.ConcStdinP Proofs.ConcVerdictP.
 
 (* (0) The quirk scheme, all protocols at once: whenever the protocol's model
    does not depend on an enabled defective call site, it is race-free (and,
@@ -117,6 +117,26 @@ Lemma C11_q_join_attrs_append_alias_refuted : forall q nm, q_join_attrs_append_a
   exists s, reachable (p_join q nm) 2 s /\ race (p_join q nm) idloc 2 s.
 Proof. exact join_quirk_racy. Qed.
 Print Assumptions C11_q_join_attrs_append_alias_refuted.
+
+(* (5b) the stdin cache behind //os.stdin: a mutex-guarded cell whose fill
+   consumes a one-shot stream of K chunks.  Every caller gets the whole stream. *)
+Theorem C11_stdin_cache_race_free : forall K N s,
+  reachable (fun _ => p_stdin K) N s -> ~ race (fun _ => p_stdin K) idloc N s.
+Proof. exact stdin_race_free. Qed.
+Print Assumptions C11_stdin_cache_race_free.
+
+Theorem C11_stdin_cache_serial_results : forall K N s t,
+  reachable (fun _ => p_stdin K) N s -> halted (fun _ => p_stdin K) t s -> result s t = stdin_serial K.
+Proof. exact stdin_serial_results. Qed.
+Print Assumptions C11_stdin_cache_serial_results.
+
+(* the variant with the mutex released around the blocking read has NO data race
+   and still returns a fragment: only the comparison with the serial result sees it *)
+Lemma C11_variant_stdin_narrow_lock_nonserial :
+  exists s, reachable (fun _ => p_stdin_narrow 2) 2 s /\ halted (fun _ => p_stdin_narrow 2) 0 s /\
+            result s 0 <> stdin_serial 2 /\ ~ race (fun _ => p_stdin_narrow 2) idloc 2 s.
+Proof. exact stdin_narrow_lock_nonserial. Qed.
+Print Assumptions C11_variant_stdin_narrow_lock_nonserial.
 
 (* (6) the mutants the check is built to catch are racy in the model *)
 Lemma C11_mutant_no_once_racy : forall vN, exists s,
